@@ -5,7 +5,7 @@
   every process exactly_lib asks for: the command line, the environment the child would see
   (`env=`; None = the child inherits the environment of the calling process, so os.environ AT
   THAT MOMENT is recorded), `timeout=`, and the current directory the child would start in
-  (`cwd=` if given, otherwise os.getcwd() at that moment).  The recorded processes are the
+  (`cwd=` if given, otherwise os.getcwd() at that moment), and the text on its stdin.  The recorded processes are the
   probe programs of the property.
 * `run_main_program`: the REAL `MainProgram.execute([FILE])` in process, with a deterministic
   sandbox resolver and in-memory stdout / stderr.
@@ -21,8 +21,9 @@ from vsym import scratch
 
 
 class Call:
-    def __init__(self, tag: str, env: Dict[str, str], env_was_none: bool, timeout, cwd: str, shell: bool):
+    def __init__(self, tag: str, env: Dict[str, str], env_was_none: bool, timeout, cwd: str, shell: bool, stdin_text=None):
         self.tag = tag
+        self.stdin_text = stdin_text  # what the child could read from its stdin (None: nothing given)
         self.env = env
         self.env_was_none = env_was_none
         self.timeout = timeout
@@ -53,7 +54,8 @@ class Recorder:
             raise ValueError('subprocess stand-in: keyword arguments outside the assumed contract: %r' % sorted(extra))
         tag = args if isinstance(args, str) else ' '.join(str(a) for a in args)
         seen = dict(self._inherited()) if env is None else dict(env)
-        self.calls.append(Call(tag, seen, env is None, timeout, os.getcwd() if cwd is None else str(cwd), shell))
+        stdin_text = stdin.read() if stdin is not None and hasattr(stdin, 'read') else None
+        self.calls.append(Call(tag, seen, env is None, timeout, os.getcwd() if cwd is None else str(cwd), shell, stdin_text))
         if self._stdout_of is not None and stdout is not None and hasattr(stdout, 'write'):
             stdout.write(self._stdout_of(tag))
         return 0
